@@ -128,11 +128,17 @@ def extra_mismatches(ctx, pid):
     out = []
     ex = ctx.extra
     for m in ex['cfail']['mismatches']:
-        if m['property'] == pid:
+        if m['property'] == pid or (pid == 'C17' and not m['expect_error'] and m['kind'].startswith(('builder()', 'complete chain'))):
             out.append((dict(m, kind='must-not-compile'), True))
     if pid == 'C15':
         for m in ex['const']['mismatches']:
             out.append((dict(m, kind='const-context'), True))
+        # a rule-valid declaration rejected by the const checker: a generated const fn is no longer const-evaluable
+        for name, msgs in ctx.verdicts['rejected'].items():
+            d = ctx.by_name.get(name)
+            if d is not None and name in ctx.dec and ctx.dec[name][0] and any(x.get('code') in ('E0015', 'E0658', 'E0080') for x in msgs):
+                out.append(({'decl': name, 'kind': 'const-context', 'what': 'generated code is rejected by the const checker',
+                             'rustc': msgs[:2]}, True))
     if pid == 'C18':
         for m in ex['regimes']['mismatches']:
             out.append((dict(m, kind='crate-regime'), True))
